@@ -5,6 +5,7 @@ from functools import reduce, cached_property
 from typing import Generator
 from itertools import product
 import re
+from numbers import Real
 
 from sympy import Expr, Symbol, sympify, sinc, cos
 
@@ -550,12 +551,12 @@ class MultiVector:
                 sqrt = lambda x: (-x) ** 0.5
                 cosh = cos
                 sinhc = sinc
-            elif isinstance(ll, (float, int)) and ll > 0:
+            elif isinstance(ll, Real) and ll > 0:
                 sqrt = lambda x: x ** 0.5
                 import numpy as np
                 cosh = np.cosh
                 sinhc = lambda x: np.sinh(x) / x
-            elif isinstance(ll, (float, int)) and ll == 0:
+            elif isinstance(ll, Real) and ll == 0:
                 sqrt = lambda x: x ** 0.5
                 import numpy as np
                 cosh = sinhc = lambda x: 1
